@@ -5,9 +5,11 @@ import CoxeterVerif.Vec
   "Defining integrals over the region with unit density" are represented by *raw moment records*
   (`∫1, ∫x, ∫y, ∫x², ∫y², ∫xy` in the plane, ten numbers in space).  Three ingredients:
 
-  1. the moment record of the CENTRED region, taken from the textbook (trusted closed forms;
-     `π` enters linearly and is a parameter `p`, so the record can be evaluated exactly over ℚ
-     "in units of π" by the driver: `p = 1`);
+  1. the moment record of the CENTRED region in closed form (`π` enters linearly and is a parameter
+     `p`, so the record can be evaluated exactly over ℚ "in units of π" by the driver: `p = 1`).
+     These closed forms are NOT trusted: `C10.ellipse_centred_moments`, `C10.ellipsoid_centred_moments`
+     (Lemmas/CurvedMoments3.lean) prove that they are the Lebesgue integrals `∫1, ∫x_i, ∫x_i x_j` over the
+     point sets in `EuclideanSpace ℝ (Fin 2|3)`;
   2. the translation law of integrals `∫(x+c)(y+d) = ∫xy + c∫y + d∫x + cd∫1`  (`shift`) — this is
      linearity of the integral, proved for every finite measure in `Lemmas/CurvedMeasure.lean`
      (`integral_shift_mul`), so it is not a trusted formula;
@@ -49,11 +51,11 @@ def Mom2.planar (M : Mom2 α) : α × α × α := (M.myy, M.mxx, M.mxy)
 /-- polar moment about the origin `J = ∫(x²+y²)` -/
 def Mom2.polar (M : Mom2 α) : α := M.mxx + M.myy
 
-/-- centred disc of radius `r` (textbook): area `p r²`, `∫x² = ∫y² = p r⁴/4`, odd moments 0 -/
+/-- centred disc of radius `r` (closed form; proved = Lebesgue integrals): area `p r²`, `∫x² = ∫y² = p r⁴/4`, odd moments 0 -/
 def discCentred (p r : α) : Mom2 α :=
   ⟨p * r * r, lit 0, lit 0, p * r * r * r * r / lit 4, p * r * r * r * r / lit 4, lit 0⟩
 
-/-- centred ellipse, semi-axis `a` along x and `b` along y (textbook):
+/-- centred ellipse, semi-axis `a` along x and `b` along y (closed form; proved = Lebesgue integrals):
     area `p a b`, `∫x² = p a³ b/4`, `∫y² = p a b³/4`, odd moments 0 -/
 def ellipseCentred (p a b : α) : Mom2 α :=
   ⟨p * a * b, lit 0, lit 0, p * a * a * a * b / lit 4, p * a * b * b * b / lit 4, lit 0⟩
@@ -90,7 +92,7 @@ def Mom3.inertia (M : Mom3 α) : M3 α :=
    -M.xy, M.xx + M.zz, -M.yz,
    -M.xz, -M.yz, M.xx + M.yy⟩
 
-/-- centred ellipsoid with semi-axes `a,b,c` along x,y,z (textbook): volume `V = 4/3 p abc`,
+/-- centred ellipsoid with semi-axes `a,b,c` along x,y,z (closed form; proved = Lebesgue integrals): volume `V = 4/3 p abc`,
     `∫x² = V a²/5`, `∫y² = V b²/5`, `∫z² = V c²/5`, all odd moments 0 -/
 def ellipsoidCentred (p a b c : α) : Mom3 α :=
   let v := lit 4 * p * a * b * c / lit 3
